@@ -57,6 +57,7 @@ func init() {
 		ruleP11(c, "C02.B15")       // the listing built is the listing returned
 		ruleW1(c, "C02.B16")
 		ruleB17(c, "C02.B17")
+		ruleMapFromPointers(c, "C02.B19") // the block read is the block the pointers name
 		ruleB18(c, "C02.B18")        // what a request changed in the cached inode is logged: sizes and contents survive a restart
 	}
 }
@@ -616,6 +617,72 @@ func b1Loop(c *Ctx, id string, fn *ssa.Function, l *natLoop, bm *ssa.Call, bs in
 	}
 	if !isWrite {
 		b1Result(c, id, key, fn, l, bufs, byPhi)
+	} else {
+		// every round that goes on to the next has handed its bytes to the journal: no way round the loop from this
+		// round's bmap back to the loop test avoids both the OverWrite of the block and the SetDirty of the buffer
+		handsOver := func(b *ssa.BasicBlock) bool {
+			for _, in := range b.Instrs {
+				if cl, ok := in.(*ssa.Call); ok {
+					cal := staticCallee(cl)
+					if cal == V.OverWrite || cal == V.SetDirty {
+						return true
+					}
+					// a private helper that does so on all its paths (the per-block body extracted)
+					if cal != nil && isPrivateHelper(cal) && cal.Blocks != nil {
+						always := P.NewAlways(func(x ssa.Instruction) bool {
+							g := staticCallee(x)
+							return g != nil && (g == V.OverWrite || g == V.SetDirty)
+						})
+						if always.Func(cal) {
+							return true
+						}
+					}
+				}
+			}
+			return false
+		}
+		seen := map[*ssa.BasicBlock]bool{}
+		reachHead := false
+		var walk func(b *ssa.BasicBlock, first bool)
+		walk = func(b *ssa.BasicBlock, first bool) {
+			if !l.body[b] {
+				return
+			}
+			if b == l.head && !first {
+				reachHead = true
+				return
+			}
+			if seen[b] {
+				return
+			}
+			seen[b] = true
+			if !first && handsOver(b) {
+				return
+			}
+			for _, s2 := range b.Succs {
+				walk(s2, false)
+			}
+		}
+		// from the block of the bmap call; a hand-over in that very block after the call counts too
+		after := false
+		hand0 := false
+		for _, in := range bm.Block().Instrs {
+			if in == ssa.Instruction(bm) {
+				after = true
+				continue
+			}
+			if after {
+				if cl, ok := in.(*ssa.Call); ok {
+					if cal := staticCallee(cl); cal == V.OverWrite || cal == V.SetDirty {
+						hand0 = true
+					}
+				}
+			}
+		}
+		if !hand0 {
+			walk(bm.Block(), true)
+		}
+		R.Check(!reachHead, id, key("every round hands its bytes to the journal"), pos, "no way from this round's bmap to the next round avoids both OverWrite and SetDirty", "hand-over on every way round", "a round can go on to the next without logging what it copied (a dropped SetDirty, a missing arm for partial blocks): the count reported includes bytes that never reach the file")
 	}
 }
 
@@ -807,6 +874,28 @@ func b1Result(c *Ctx, id string, key func(string) string, fn *ssa.Function, l *n
 		} else {
 			nApp = n0
 		}
+	}
+	if acc != nil {
+		// ... starting from nothing
+		empty := false
+		switch x := acc.init.(type) {
+		case *ssa.Const:
+			empty = x.Value == nil
+		case *ssa.MakeSlice:
+			if k, isk := constInt(x.Len); isk && k == 0 {
+				empty = true
+			}
+		case *ssa.Slice:
+			if k, isk := constInt(x.High); x.High != nil && isk && k == 0 {
+				empty = true
+			}
+			if al, isA := x.X.(*ssa.Alloc); isA {
+				if at, isArr := derefType(al.Type()).Underlying().(*types.Array); isArr && at.Len() == 0 {
+					empty = true
+				}
+			}
+		}
+		R.Check(empty, id, key("the result starts empty"), P.Pos(l.head.Instrs[0].Pos()), "the accumulated result is an empty slice before the first round", "make(..., 0) / nil", "the result starts with bytes that were not read from the file: everything returned is shifted")
 	}
 	R.Check(acc != nil && okApp, id, key("bytes of every round are appended to the result"), P.Pos(l.head.Instrs[0].Pos()), "the loop-carried result grows only by append(result, <bytes of this round's block buffer>...)", "append of the buffer's bytes, in order", "the result of the read is not built by appending the bytes of each round's block in order")
 	if acc == nil {
